@@ -669,10 +669,15 @@ pub fn evaluate(sc_cfg: &Config, defs: &[Def], world: &mut World, plan: &EvalPla
             }
             st.observe(&mut eng, &mut out);
         }
-        // trailing misuse (after finish)
+    }
+    if !st.fatal && (st.finished_seen || out.aborted) {
+        // trailing misuse (after finish, and after an abort: the evaluation is over, the history not yet fetched)
         while !st.fatal && misuse_i < misuse_sorted.len() {
             let m = misuse_sorted[misuse_i].clone();
             misuse_i += 1;
+            if out.aborted {
+                probe(&mut out.probes, "misuse_after_abort");
+            }
             st.do_misuse(&mut eng, &mut out, &m);
         }
     }
@@ -1548,6 +1553,8 @@ impl<'a> DriverState<'a> {
             eng.failed(),
             eng.upstream_failed(),
             (0..gv.jobs.len()).map(|i| eng.job_output(&gv.jobs[i].id)).collect::<Vec<_>>(),
+            // the history the engine would hand out (obtainable only once the evaluation is over)
+            if snap.start_status == 2 { Some(format!("{:?}", eng.new_history().map_err(|e| normalise(&format!("{:?}", e))))) } else { None },
         );
         let r = match (m.call, target) {
             (0, Some(j)) => eng.now_running(&gv.jobs[j].id),
@@ -1606,12 +1613,15 @@ impl<'a> DriverState<'a> {
             eng.failed(),
             eng.upstream_failed(),
             (0..gv.jobs.len()).map(|i| eng.job_output(&gv.jobs[i].id)).collect::<Vec<_>>(),
+            if snap.start_status == 2 { Some(format!("{:?}", eng.new_history().map_err(|e| normalise(&format!("{:?}", e))))) } else { None },
         );
         if before != after || pending != 0 {
             let what = if before.0 != after.0 {
                 "internal state"
             } else if pending != 0 {
                 "state transitions happened"
+            } else if before.7 != after.7 {
+                "the history the engine hands out"
             } else {
                 "query results"
             };
